@@ -68,6 +68,14 @@ def run_C01(ctx):
             "artela-evm vm vs go-ethereum v1.12.0 core/vm on generated programs (results, post-state root, logs, refund, self-destructs, debug events)",
             nontrivial=lambda c: c.get("steps", 0) >= 5)
     execref_run(ctx)
+    precomp_run(ctx, "C01")
+
+
+def precomp_run(ctx, prefix):
+    ref_run(ctx, "precompdiff", ["precompdiff", "--n", n_cases(ctx, 200, 4000)],
+            "standard precompiles 0x01-0x09 of all four historical tables vs go-ethereum v1.12.0: RequiredGas on boundary-length inputs and on MODEXP headers sweeping powers of two "
+            "(incl. the 64-bit clamp region of the EIP-2565 price), results when the fee is payable",
+            oracle_prefix=prefix)
 
 
 def execref_run(ctx, quick=600, thorough=30000):
@@ -82,6 +90,7 @@ def run_C02(ctx):
             "per-step gas/cost stream, frame gas hand-over, refund and leftover gas vs go-ethereum v1.12.0, re-run at gas limits one below / on / one above intermediate gas values",
             nontrivial=lambda c: c.get("steps", 0) >= 3)
     execref_run(ctx, 400, 20000)
+    precomp_run(ctx, "C02")
 
 
 def _exec_run_late(ctx, prefix, mask, quick, thorough):
@@ -218,6 +227,7 @@ def run_C20(ctx):
             oracle_prefix="C20")
     corr_run(ctx, "journal", ["journal", "--n", n_cases(ctx, 800, 40000)], "Model/Journal.v decoders vs the instructions (the work formulas are about these functions)",
              nontrivial=lambda c: len(c.get("steps") or []) > 1, has_oracle=True)
+    precomp_run(ctx, "C20")
 
 
 EXEC_RULE = ("scenario = 4 mutually calling generated contracts (snippet grammar incl. all call kinds, value transfers, SSTORE/LOG/CREATE/CREATE2/SELFDESTRUCT, "
